@@ -301,17 +301,24 @@ func H_kq_fd_history() {
 			}
 		}
 		verifK1(w, " after a history step")
-		for _, p := range wt.WatchList() {
+		l := wt.WatchList()
+		for _, p := range l {
 			ok := false
 			for i, a := range args {
 				ok = ok || (p == a && added[i])
 			}
 			verifAssert(ok, "WatchList shows a path the user did not add (or that was removed)")
 		}
+		for i, a := range args {
+			if added[i] && verifNodeOf(a) != nil {
+				verifAssert(verifInList(l, a), "a path the user added (and did not remove) is missing from WatchList: removing a directory's watch must not take the user's own watches inside it along")
+			}
+		}
 	}
 	for i, a := range args {
 		if added[i] {
-			_ = wt.Remove(a)
+			err := wt.Remove(a)
+			verifAssert(err == nil || verifNodeOf(a) == nil, "Remove of a path the user added succeeds, whatever was removed before")
 		}
 	}
 	verifK1(w, " after removing everything")
@@ -435,4 +442,43 @@ func H_kq_link_and_target() {
 	verifQuiesce()
 	verifAssert(verifOpenCount() == 0 && !verifQ.kqOpen && !verifQ.pipeROpen && !verifQ.pipeWOpen && verifQ.badClose == 0, "Close closes every descriptor, none twice")
 	verifReach("kq-link-and-target")
+}
+
+func verifInList(l []string, p string) bool {
+	for _, x := range l {
+		if x == p {
+			return true
+		}
+	}
+	return false
+}
+
+// The n-th vnode registration (kevent EV_ADD) fails - ENOMEM, or a file system
+// that does not support EVFILT_VNODE: whatever Add reports, every descriptor it
+// opened is either accounted for in the tables or closed again.
+func H_kq_register_fails() {
+	verifQReset()
+	verifAddNode("/d", nDir, "")
+	verifAddNode("/d/a", nFile, "")
+	verifAddNode("/d/b", [...]int{nAbsent, nFile}[verifChoose("kind-b", 2)], "")
+	verifAddNode("/f", nFile, "")
+	wt, w := verifKqNew()
+	if verifBool("watched-before") {
+		verifAssert(wt.Add("/f") == nil, "Add file")
+	}
+	verifQ.regFail = verifQ.regCount + 1 + verifChoose("failing-registration", 3)
+	arg := [...]string{"/d", "/f", "/d/a"}[verifChoose("arg", 3)]
+	err := wt.Add(arg)
+	verifK1(w, " after an Add during which a kevent registration failed")
+	if err != nil {
+		verifReach("kq-register-failed")
+	}
+	for _, p := range wt.WatchList() {
+		_ = wt.Remove(p)
+	}
+	verifK1(w, " after removing what is listed")
+	verifAssert(wt.Close() == nil, "Close returns")
+	verifQuiesce()
+	verifAssert(verifOpenCount() == 0 && !verifQ.kqOpen && !verifQ.pipeROpen && !verifQ.pipeWOpen && verifQ.badClose == 0, "nothing stays open, nothing closed twice")
+	verifReach("kq-register-fails")
 }
